@@ -65,7 +65,7 @@ class RemoteValueSetpointShift(RemoteValue[float]):
             )
         if self._internal_dpt_class == DPTValue1Count:
             try:
-                converted_value = int(value / self.setpoint_shift_step)
+                converted_value = round(value / self.setpoint_shift_step)
             except (TypeError, ValueError, OverflowError) as err:
                 raise ConversionError(
                     "Could not serialize setpoint shift",
